@@ -4,7 +4,7 @@
 from zope.interface import implementer
 from twisted.internet import defer
 from allmydata.interfaces import IFilesystemNode, MustNotBeUnknownRWError, \
-    MustBeDeepImmutableError
+    MustBeDeepImmutableError, MustBeReadonlyError
 from allmydata import uri
 from allmydata.uri import ALLEGED_READONLY_PREFIX, ALLEGED_IMMUTABLE_PREFIX
 
@@ -103,6 +103,11 @@ class UnknownNode:
                 if self.error:
                     assert self.rw_uri is None and self.ro_uri is None
                     return
+            elif not read_cap.is_readonly():
+                # a cap of a known kind in the ro_uri slot must not be a write cap: it would be
+                # stored in the clear and handed to every holder of the directory read cap
+                self.error = MustBeReadonlyError("known write cap specified in the ro_uri slot", name)
+                return
 
         if deep_immutable:
             assert self.rw_uri is None
